@@ -18,7 +18,9 @@ AtomTexts == { "name > 'p4.log'", "name <= 'p6'", "ext >= 'm'", "name < 500", "n
                \* date atoms whose interval ends on the second some entry was modified (23:59:59 of the day, 15:59:59 of the hour)
                "modified = 2017-05-01", "modified != '2017-05-01 15'", "modified > '2017-05-01 15'", "modified <= 2017-05-01",
                \* the documented infix negations and operator words in other letter cases
-               "size between 10 and 1024", "size NOT BETWEEN 10 AND 1024", "size Between 11 And 2000", "name NOT LIKE '%.log'", "name Like 'p%'", "name RX 'txt$'" }
+               "size between 10 and 1024", "size NOT BETWEEN 10 AND 1024", "size Between 11 And 2000", "name NOT LIKE '%.log'", "name Like 'p%'", "name RX 'txt$'",
+               \* text operators on columns that are not text (they see the value as it is printed)
+               "size like '1%'", "uid =~ '^1'", "size notlike '%0'" }
 Laws == {"complement", "complement-prefix", "doubleneg", "and", "or", "demorgan-and", "demorgan-or", "precedence"}
 Unary == {"complement", "complement-prefix", "doubleneg"}
 Init == law = "" /\ f = "" /\ g = "" /\ h = "" /\ phase = "start"
